@@ -33,7 +33,8 @@ import (
 //   addgauge <owner> <gaugeId> <c0,c1>
 //   mkstream <c0,c1> <g:w,...|-> <start> <epochId> <numEpochs> | term <id> | replace <id> <g:w,...>
 // Harness-only lines (executed on the real lockup module, not shown to the model; the resulting lock
-// table is handed to the model by a `locks` line): lock <owner> <denom> <amt> <dur>, unlock <owner> <lockId>
+// table is handed to the model by a `locks` line): lock <owner> <denom> <amt> <dur>, unlock <owner> <lockId>;
+// xferowner <r> <newOwner>: real MsgTransferOwnership (on success the model gets a `rollapp` line)
 // Addresses: 0..na-1 actors, 100 streamer module, 101 incentives module, 102 lockup module (blocked).
 // Times: seconds since BaseTime + c15T0; 0 is the zero time.  Epoch ids: 0 day, 1 hour, 2 week.
 
@@ -321,6 +322,13 @@ func (w *c15World) apply(fl []string, unlimited bool) (class string, err error) 
 	case "unlock":
 		_, err := f.Deliver(lockuptypes.NewMsgBeginUnlocking(c15Addr(int(n(1))), uint64(n(2)), nil))
 		return c15Class(err), err
+	case "xferowner":
+		ra, ok := f.App.RollappKeeper.GetRollapp(f.Ctx, c15RollappID(int(n(1))))
+		if !ok {
+			return "err", fmt.Errorf("no rollapp")
+		}
+		_, err := f.Deliver(&rollapptypes.MsgTransferOwnership{CurrentOwner: ra.Owner, NewOwner: c15Addr(int(n(2))).String(), RollappId: ra.RollappId})
+		return c15Class(err), err
 	case "rollapp":
 		f.App.RollappKeeper.SetRollapp(f.Ctx, rollapptypes.Rollapp{RollappId: c15RollappID(int(n(1))), Owner: c15Addr(int(n(2))).String(), Launched: fl[3] == "1"})
 		return "ok", nil
@@ -442,10 +450,10 @@ func c15Only(cs sdk.Coins) sdk.Coins {
 func (t *c15Trace) exec(line string) bool {
 	r := t.r
 	fl := strings.Fields(line)
-	if len(fl) == 0 || fl[0] == "locks" || fl[0] == "reset" {
+	if len(fl) == 0 || fl[0] == "locks" || fl[0] == "reset" || (fl[0] == "rollapp" && len(fl) > 2 && fl[2] == "102") {
 		return true // `locks` lines are derived from the real lockup module, never taken from a file
 	}
-	harnessOnly := fl[0] == "lock" || fl[0] == "unlock"
+	harnessOnly := fl[0] == "lock" || fl[0] == "unlock" || fl[0] == "xferowner"
 	t.lines = append(t.lines, line)
 	pre := t.w.snap()
 	preLocks, _ := t.w.f.App.LockupKeeper.GetPeriodLocks(t.w.f.Ctx)
@@ -480,6 +488,17 @@ func (t *c15Trace) exec(line string) bool {
 		t.onHalt(fl[0], class, err)
 		return false
 	}
+	if fl[0] == "xferowner" && class == "ok" {
+		// the transfer went through on the real rollapp module: tell the model the new owner
+		ra, _ := t.w.f.App.RollappKeeper.GetRollapp(t.w.f.Ctx, c15RollappID(func() int { v, _ := strconv.Atoi(fl[1]); return v }()))
+		rl := fmt.Sprintf("rollapp %s %s %s", fl[1], fl[2], c15b(ra.Launched))
+		t.lines = append(t.lines, rl)
+		r.Emit(rl, "ok | "+t.w.obs())
+		if fl[2] == "102" {
+			t.blockedOwner = true
+			r.Hit("rollapp-owner-blocked")
+		}
+	}
 	// hand the (possibly changed) lock table to the model
 	if fl[0] == "lock" || fl[0] == "unlock" || fl[0] == "end" {
 		if ll := t.w.locksLine(); ll != t.lastLocks {
@@ -504,19 +523,22 @@ func (t *c15Trace) onHalt(op, class string, err error) {
 		msg = err.Error()
 	}
 	r.Hit("halt/" + op)
+	// every failing Begin/EndBlock is a C11 matter ("block processing never fails"); the signature names the cause
 	switch {
-	case t.blockedOwner && strings.Contains(msg, "not allowed to receive funds"):
-		// F4 (C11's finding): a rollapp owned by a blocked module account; deliberately generated branch
+	case op == "end" && t.blockedOwner && strings.Contains(msg, "not allowed to receive funds"):
+		// F4: the owner of a rollapp with a gauge was transferred to a blocked module account
 		r.Hit("halt/blocked-rollapp-owner")
-	case op == "end" && strings.Contains(msg, "insufficient funds") && (t.sharesExceeded || t.servedTwice || t.everUnsorted):
+		r.Violate("C11/block/streamer-endblock-fails/blocked-rollapp-owner",
+			"streamer EndBlock failed (block processing stops): a rollapp gauge pays the rollapp owner, who is a blocked module account: "+c15Short(msg), t.replay()...)
+	case op == "end" && strings.Contains(msg, "insufficient funds"):
 		c := t.cause()
-		if c == "unexplained" { // the failing block itself is the second visit
+		if c == "unexplained" && t.everUnsorted { // the failing block itself is the second visit
 			c = "pair-served-twice"
 		}
-		r.Violate("C15/block/endblock-fails-streamer-cannot-pay/"+c,
+		r.Violate("C11/block/end-fails/streamer-cannot-pay-"+c,
 			"streamer EndBlock failed (block processing stops): streams try to hand out more than the streamer account holds: "+c15Short(msg), t.replay()...)
 	default:
-		r.Violate("C15/block/"+op+"-fails", "block processing failed: "+c15Short(msg), t.replay()...)
+		r.Violate("C11/block/"+op+"-fails/other", "block processing failed: "+c15Short(msg), t.replay()...)
 	}
 }
 
@@ -1076,9 +1098,9 @@ func (x *c15Gen) txOp() bool {
 			rr := g.Intn(x.nRoll)
 			owner := g.Intn(c15NA)
 			if perturb && g.Chance(15) {
-				owner = 102
-				x.t.blockedOwner = true
-				x.t.r.Hit("rollapp-owner-blocked")
+				// deliberately: hand the rollapp to a blocked module account through the real message
+				x.t.r.Hit("perturb/xferowner-blocked")
+				return x.do(fmt.Sprintf("xferowner %d 102", rr))
 			}
 			return x.do(fmt.Sprintf("rollapp %d %d %s", rr, owner, c15b(g.Chance(75))))
 		}
@@ -1254,6 +1276,15 @@ var c15Witnesses = map[string][]string{
 		"mkstream 3000,0 1:1,2:1 NOW 1 1", "mkstream 3000,0 1:1,2:1 NOW 1 3", "mkstream 3000,0 1:1,2:1 NOW 1 3",
 		"begin 3601", "end", "begin 1200", "end", "begin 1200", "end", "begin 1201", "end", "begin 1200", "end", "begin 1200", "end", "begin 1201", "end",
 		"begin 1200", "end", "begin 1200", "end", "begin 1201", "end", "begin 1200", "end",
+	},
+	// F4: a launched rollapp with a gauge is transferred to a blocked module account; a stream pays the gauge
+	"f4-blocked-rollapp-owner": {
+		"begin 1", "end",
+		"rollapp 0 2 1", "rgauge 0",
+		"fund 100 9000,0",
+		"mkstream 9000,0 1:1 NOW 1 3",
+		"xferowner 0 102",
+		"begin 3601", "end", "begin 3601", "end", "begin 3601", "end",
 	},
 	// a stream that becomes active at another identifier's epoch start is served in its first (partial)
 	// epoch only if the pointer of its own epoch has not yet reached the end
